@@ -167,3 +167,53 @@ func Symbolic() bool { return false }
 
 // IsAssumeFailed reports whether a recovered panic value came from Assume.
 func IsAssumeFailed(r interface{}) bool { _, ok := r.(assumeFailed); return ok }
+
+// Thorough reports whether the thorough tier is running (deeper bounds).
+func Thorough() bool { return os.Getenv("VERIF_TIER") == "thorough" }
+
+// And / Or / Implies evaluate without short-circuit control flow, so that the
+// symbolic executor sees one formula instead of forking per operand.
+func And(cs ...bool) bool {
+	for _, c := range cs {
+		if !c {
+			return false
+		}
+	}
+	return true
+}
+
+func Or(cs ...bool) bool {
+	for _, c := range cs {
+		if c {
+			return true
+		}
+	}
+	return false
+}
+
+func Implies(a, b bool) bool { return !a || b }
+
+// Ite returns a if c else b (as one formula).
+func Ite(c bool, a, b int) int {
+	if c {
+		return a
+	}
+	return b
+}
+
+// BytesEq compares two byte slices as one formula.
+func BytesEq(a, b []byte) bool {
+	if len(a) != len(b) {
+		return false
+	}
+	for i := range a {
+		if a[i] != b[i] {
+			return false
+		}
+	}
+	return true
+}
+
+// MaxSymAlloc sets the largest symbolic allocation size the engine explores
+// (a recorded cut; default 64).
+func MaxSymAlloc(n int) {}
